@@ -81,9 +81,9 @@ class SymValue:
     """an arbitrary `ast::value::Value`: opaque struct whose `value: ValueKind` field, the `Literal` inside and the
     bool / long payloads are lazily created symbolic terms.  `code` is the Cedar type of the value as an index into KINDS."""
 
-    def __init__(s, ex, name):
+    def __init__(s, ex, name, v=None):
         s.ex, s.name = ex, name
-        s.v = Opaque('ast::value::Value', name)
+        s.v = v if v is not None else Opaque('ast::value::Value', name)
         s.vk = ex.opaque_field(s.v, None, 0, 'ast::value::ValueKind')
         s.vk_disc = ex.disc_term(s.vk)
         s.lit = ex.opaque_field(s.vk, 'Lit', 0, 'ast::literal::Literal')
